@@ -48,7 +48,16 @@ RULE = ("E1a: random real temporary trees (nested directories, empty and non-emp
         "or --unsafe, reading through the path gave a regular file with exactly the recorded content; nothing else is "
         "altered or created.  E1a/E1b/E1c-links: the link-aware model against the real code on those trees.  serve() level: "
         "a dropped step's output replaced by each shape before the cleaning build (with and without an intermediate "
-        "--no-clean build); tampering of e3 histories also replaces outputs by links to user files.")
+        "--no-clean build); tampering of e3 histories also replaces outputs by links to user files.  "
+        "Phases (clean_own.phases_case): three build phases inside ONE Workflow / Builder (watch mode): build; steps "
+        "dropped while removals fail (output replaced by a directory, os.remove failing once by injection); the user "
+        "adopts former outputs as static (own content / unchanged); complete build again; directed scenarios A and B in "
+        "the root and in a directory, plus random projects.  After every phase the ownership judge runs on that phase's "
+        "own graph (what is static when the cleanup starts must survive), to_be_deleted must be empty, and the model "
+        "run phase by phase with the queue handed on is compared (E1d-phases).  An exception escaping the code under "
+        "test is the outcome of that case (compared with the model, reported with the case as witness), never the end "
+        "of the phase; the cleanup functions are called in the transactional context Builder.finalize uses (read from "
+        "builder.py).")
 TRUSTED_BASE = [
     "Coq 8.16.1 kernel (vm_compute in Examples, generated-table facts and the correspondence evaluation)",
     "Print Assumptions: Closed under the global context for every C06 theorem",
@@ -146,15 +155,17 @@ async def _rdf_case(rng, hids):
             qfiles, qdirs = cc.dump_queue(wf, hids)
             before = cc.snapshot_fs(".", hids)
             client, reporter = cc.make_reporter()
-            await remove_deletable_files(wf, reporter)
+            crash = await cc.call_cleanup(w, "remove_deletable_files", lambda: remove_deletable_files(wf, reporter))
             after = cc.snapshot_fs(".", hids)
             removed = [d for t, d in client.reports if t == "REMOVE"]
             left = dict(wf.to_be_deleted)
     return {"desc": desc, "qfiles": qfiles, "qdirs": sorted(qdirs), "before": before, "after": after,
-            "removed": removed, "left": {str(k): str(v) for k, v in left.items()}}
+            "removed": removed, "left": {str(k): str(v) for k, v in left.items()}, "crash": crash}
 
 
 def _rdf_check(c):
+    if c.get("crash"):
+        return "false"        # an exception escaped the real function; the model has none
     files = [d for d in c["removed"] if c["before"].get(d) != "dir"]
     dirs = [d for d in c["removed"] if c["before"].get(d) == "dir"]
     return (f"let r := remove_deletable_files {cc.coq_queue(c['qfiles'], c['qdirs'])} {cc.coq_fs(c['before'])} in "
@@ -181,7 +192,9 @@ def _rdf_oracle(c):
         if p not in before:
             out.append(("rdf:created", f"{p} appeared"))
     if c["left"]:
-        out.append(("rdf:queue-not-cleared", str(c["left"])))
+        out.append(("rdf:queue-not-cleared", f"to_be_deleted after remove_deletable_files: {c['left']}"))
+    if c.get("crash"):
+        out.append(("rdf:exception:" + c["crash"].split(":")[0], f"remove_deletable_files raised {c['crash']}"))
     return out
 
 
@@ -225,7 +238,7 @@ async def _clean_case(rng, hids):
                 try:
                     with contextlib.redirect_stdout(io.StringIO()):
                         clean(w.db, {Path(t) for t in trs}, cc.clean_namespace(all_, safe, commit))
-                except (HashError, OSError) as e:
+                except Exception as e:  # noqa: BLE001 - HashError / OSError are modelled; anything else is an outcome too
                     crash = f"{type(e).__name__}: {e}"
             after = cc.snapshot_fs(".", hids)
             res = {"graph": g, "before": before, "after": after, "args": [all_, safe, commit], "paths": trs,
@@ -376,6 +389,10 @@ def correspondence(ctx):
     # the same three entry points on trees with symbolic links (harness/clean_own.py); judged by the oracle
     own = co.generate_families(ctx, ctx.scale(40, 400), ctx.scale(20, 200), ctx.scale(20, 200))
     ctx.own_cases = own
+    # several build phases of one director (one Workflow, one Builder): removals that fail, adoption as static
+    ctx.phase_cases = co.generate_phases(ctx, ctx.scale(6, 60))
+    co.judge_phases(ctx, ctx.phase_cases)      # the property itself, before any comparison with the model
+    ctx.phases_judged = True
     # E1a
     checks = [_rdf_check(c) for c in cases]
     for c in cases:
@@ -391,7 +408,7 @@ def correspondence(ctx):
         c = cases[i]
         _report(ctx, "correspondence", "E1a:remove_deletable_files", "E1a:remove_deletable_files:model-differs",
                 "real remove_deletable_files and model/Clean.v disagree on the resulting tree or the REMOVE events",
-                {k: c[k] for k in ("desc", "qfiles", "qdirs", "before", "after", "removed")})
+                {k: c.get(k) for k in ("desc", "qfiles", "qdirs", "before", "after", "removed", "crash")})
     # E1b
     checks = [_clean_check(c) for c in cl]
     for c in cl:
@@ -450,6 +467,11 @@ def _own_correspondence(ctx, own):
         for c in cases:
             checks.append(check(c))
             origin.append((name, wit, c))
+    phases = [c for c in getattr(ctx, "phase_cases", []) if co.phases_modelled(c)]
+    ctx.count("E1d-phases_cases", len(phases))
+    for c in phases:
+        checks.append(co.phases_model_check(c))
+        origin.append(("E1d-phases:finalize-per-phase", co.phases_witness, c))
     bad = _model_cases(ctx, "own", checks, 100)
     ctx.traces_validated += len(checks) - len(bad)
     reported = {}
@@ -474,6 +496,8 @@ def oracle(ctx):
     # queues, Builder.finalize and clean.clean() on projects grown through the Workflow API, the real serve()
     co.run_families(ctx, ctx.scale(40, 400), ctx.scale(20, 200), ctx.scale(20, 200), c06=True,
                     res=getattr(ctx, "own_cases", None))
+    if not getattr(ctx, "phases_judged", False):
+        co.judge_phases(ctx, co.generate_phases(ctx, ctx.scale(6, 60)))
     if cc.e3_available():
         co.run_e3_replace(ctx, ctx.scale(8, 52), c06=True)
     for c in getattr(ctx, "rdf_cases", []):
@@ -529,6 +553,7 @@ def search(ctx):
     scale (every shape of user replacement, links made by steps, all three cleanup entry points, serve()), then
     more finalize cases of the Workflow-level generator."""
     co.run_families(ctx, 600, 300, 300, c06=True, suffix=":search")
+    co.judge_phases(ctx, co.generate_phases(ctx, 100), suffix=":search")
     if cc.e3_available():
         co.run_e3_replace(ctx, 52, c06=True, suffix=":search")
     seen = set()
